@@ -718,10 +718,12 @@ def open_sites_through_helpers(prog: Program, effects: T.Any, fn: FunctionInfo, 
 
 
 # --------------------------------------------------------------------------- one-expression helpers
-def inline_simple_calls(prog: T.Optional[Program], fn: FunctionInfo, expr: ast.AST, depth: int = 3) -> ast.AST:
+def inline_simple_calls(prog: T.Optional[Program], fn: FunctionInfo, expr: ast.AST, depth: int = 3,
+                        skip: T.Iterable[str] = ()) -> ast.AST:
     """Replace calls of one-expression helpers (a closure defined in fn, or a function of fn's module, whose body is a
     single `return <expr>` after an optional docstring) by that expression with the parameters substituted."""
     import copy
+    skip_ = set(skip)
     local_defs_: T.Dict[str, ast.FunctionDef] = {n.name: n for n in ast.walk(fn.node) if isinstance(n, ast.FunctionDef) and n is not fn.node}
 
     def body_expr(fd: ast.FunctionDef) -> T.Optional[ast.AST]:
@@ -744,6 +746,8 @@ def inline_simple_calls(prog: T.Optional[Program], fn: FunctionInfo, expr: ast.A
         def visit_Call(self, node: ast.Call) -> ast.AST:
             self.generic_visit(node)
             if self.d <= 0 or not isinstance(node.func, ast.Name) or node.keywords and any(k.arg is None for k in node.keywords):
+                return node
+            if node.func.id in skip_:
                 return node
             fd = local_defs_.get(node.func.id)
             if fd is None and prog is not None and node.func.id in fn.module.functions:
